@@ -1,6 +1,6 @@
 #!/bin/bash
 # confirm a seeded change in a fresh scratch worktree: applies cleanly, suite passes, demo fails with / passes without
-ID="$1"; ROOT="${SEEDROOT:-/tmp/mut}"; SRC="$ROOT/$ID/_seed"; WT="$ROOT/eval_$ID"
+ID="$1"; ROOT="${SEEDROOT:-/tmp/mut}"; mkdir -p "$ROOT"; SRC="$ROOT/$ID/_seed"; WT="$ROOT/eval_$ID"
 [ -f "$SRC/patch.diff" ] || { echo "$ID: no patch"; exit 2; }
 git -C /repo worktree remove --force "$WT" 2>/dev/null
 git -C /repo worktree add -q --detach "$WT" HEAD || exit 2
